@@ -523,6 +523,10 @@ func (c *Client) do(ctx context.Context, req *protocol.Request, resp *protocol.R
 			err = c.options.HostClientConfigHook(hc)
 			if err != nil {
 				c.mLock.Unlock()
+				// the host client is not going to be used: stop what SetDynamicConfig started (state observer)
+				if f, ok := hc.(io.Closer); ok {
+					f.Close() //nolint:errcheck
+				}
 				return err
 			}
 		}
